@@ -24,7 +24,7 @@
    walker reported), so it does not appear at this layer. *)
 From Coq Require Import List NArith Bool Sorting.Sorted.
 From FS Require Import Sx Model.Path Model.Stat Model.Diff Model.AbsDest
-  Proofs.DiffP Proofs.DiffSpecP Proofs.AbsDestP Proofs.ReceiveP.
+  Proofs.DiffP Proofs.DiffSpecP Proofs.AbsDestP Proofs.ReceiveP Proofs.FilterRecvP.
 Import ListNotations.
 Open Scope N_scope.
 
@@ -157,6 +157,25 @@ Theorem resync_after_transfer_noop : forall (H : bytes -> bytes) (hdr : stat -> 
   {| ds_map := dest_of A'; ds_reqs := []; ds_notifs := []; ds_changes := []; ds_err := false |}.
 Proof. exact resync_after_transfer_noop_proof. Qed.
 
+(* ... also through the receiver's Filter (ReceiveOpt.Filter: handed to the differ AND to the
+   writer; [receive_abs_f wf], Model/AbsDest.v): what lands at the destination is the stat AS
+   REWRITTEN by the filter, and that is what the differ compares the destination with — for
+   every filter that is a function of (path, stat), never answers "skip" and keeps path, type
+   bits and link name ([filter_ok]: uid/gid remapping, mode masks, timestamp rounding, ...).  So
+   after a transfer through the filter, a second synchronisation of the unchanged source
+   through the same filter hands nothing to the writer.  Hypotheses on the FILTERED source
+   ([filter_entries wf B]): same identity key => same bytes; link entries carry the metadata of
+   the entry they name (the filter treats the names of one inode alike). *)
+Theorem resync_after_transfer_noop_filtered : forall wf, filter_ok wf ->
+  forall (H : bytes -> bytes) (hdr : stat -> bytes) d A B,
+  wf_listing (map fst A) -> wf_listing (map fst B) -> links_ok B ->
+  identity_faithful d A (filter_entries wf B) -> links_meta (filter_entries wf B) ->
+  let r := receive_abs_f wf H hdr Fresh d A B in
+  let A' := dest_listing B (ds_map r) in
+  receive_abs_f wf H hdr Fresh DMetadata A' B =
+  {| ds_map := dest_of A'; ds_reqs := []; ds_notifs := []; ds_changes := []; ds_err := false |}.
+Proof. exact resync_after_transfer_noop_f_proof. Qed.
+
 (* With differencing disabled every regular file of the source is re-requested. *)
 Theorem diff_none_requests_all : forall (H : bytes -> bytes) (hdr : stat -> bytes) A B,
   wf_listing (map fst A) -> wf_listing (map fst B) -> links_ok B ->
@@ -194,6 +213,7 @@ Print Assumptions rewritten_get_new_inode.
 Print Assumptions hard_link_joins_inode.
 Print Assumptions receive_resync_noop.
 Print Assumptions resync_after_transfer_noop.
+Print Assumptions resync_after_transfer_noop_filtered.
 Print Assumptions diff_none_requests_all.
 
 (* ------------------------------------------------------------------ examples *)
